@@ -65,7 +65,7 @@ RULE = ('endpoints-parse: rendered well-formed address lists plus mutations (dro
         'distinct canonical JSON of (address, steps); non-trivial = the transport connected (lifecycle) / at least one '
         'entry (parse)')
 
-REACTIONS = ['n', 'c', 'u', 'r', 'p']
+REACTIONS = ['n', 'c', 'u', 'r', 'p', 'x']
 XML_HEAD = ('<!DOCTYPE node PUBLIC "-//freedesktop//DTD D-BUS Object Introspection 1.0//EN" '
             '"http://www.freedesktop.org/standards/dbus/1.0/introspect.dtd">\n')
 
@@ -78,16 +78,26 @@ def hexs(s):
 # address lists (written from the DBus specification; independent of endpoints.py)
 
 def render_entry(e):
+    """transport:key=value,...  (DBus specification); `guid` is an optional extra key, `swap` permutes host/port."""
     k = e['kind']
     if k == 'unix':
-        return 'unix:path=' + e['path']
-    if k == 'abstract':
-        return 'unix:abstract=' + e['name']
-    if k == 'tcp':
-        return 'tcp:host=%s,port=%d' % (e['host'], e['port'])
-    if k == 'nonce-tcp':
-        return 'nonce-tcp:host=%s,port=%d,noncefile=%s' % (e['host'], e['port'], e['noncefile'])
-    raise ValueError(k)
+        kv = [('path', e['path'])]
+    elif k == 'tmpdir':
+        kv = [('tmpdir', e['dir'])]
+    elif k == 'abstract':
+        kv = [('abstract', e['name'])]
+    elif k == 'tcp':
+        kv = [('host', e['host']), ('port', '%d' % e['port'])]
+    elif k == 'nonce-tcp':
+        kv = [('host', e['host']), ('port', '%d' % e['port']), ('noncefile', e['noncefile'])]
+    else:
+        raise ValueError(k)
+    if e.get('swap') and len(kv) >= 2:
+        kv[0], kv[1] = kv[1], kv[0]
+    if e.get('guid'):
+        kv.insert(e.get('guidpos', len(kv)) % (len(kv) + 1), ('guid', e['guid']))
+    transport = {'unix': 'unix', 'tmpdir': 'unix', 'abstract': 'unix', 'tcp': 'tcp', 'nonce-tcp': 'nonce-tcp'}[k]
+    return transport + ':' + ','.join('%s=%s' % p for p in kv)
 
 
 def entry_target(e):
@@ -95,23 +105,34 @@ def entry_target(e):
     k = e['kind']
     if k == 'unix':
         return 'at:U:' + hexs(e['path'])
+    if k == 'tmpdir':
+        return 'at:U:' + hexs(e['dir'] + '/dbus-' + str(os.getpid()))
     if k == 'abstract':
         return 'at:U:' + hexs('\0' + e['name'])
     return 'at:T:%s:%d' % (hexs(e['host']), e['port'])
 
 
 def gen_entry(rng, tmp):
-    k = rng.choice(['unix', 'unix', 'abstract', 'tcp', 'tcp', 'nonce-tcp'])
+    k = rng.choice(['unix', 'unix', 'abstract', 'tmpdir', 'tcp', 'tcp', 'nonce-tcp'])
     if k == 'unix':
-        return {'kind': 'unix', 'path': rng.choice(['/tmp/verif-bus-%d' % rng.randrange(4), '/run/user/0/bus',
-                                                    '/var/run/dbus/system_bus_socket', 'rel/é-bus'])}
-    if k == 'abstract':
-        return {'kind': 'abstract', 'name': rng.choice(['/tmp/dbus-Xy%d' % rng.randrange(4), 'verif'])}
-    host = rng.choice(['127.0.0.1', 'localhost', '::1', 'bus.example.org', '10.0.0.%d' % rng.randrange(9)])
-    port = rng.choice([1, 80, 1234, 65535, rng.randrange(1, 65536)])
-    if k == 'tcp':
-        return {'kind': 'tcp', 'host': host, 'port': port}
-    return {'kind': 'nonce-tcp', 'host': host, 'port': port, 'noncefile': os.path.join(tmp, 'nonce')}
+        e = {'kind': 'unix', 'path': rng.choice(['/tmp/verif-bus-%d' % rng.randrange(4), '/run/user/0/bus',
+                                                 '/var/run/dbus/system_bus_socket', 'rel/é-bus'])}
+    elif k == 'tmpdir':
+        e = {'kind': 'tmpdir', 'dir': rng.choice(['/tmp', '/tmp/verif-%d' % rng.randrange(3), '/var/tmp'])}
+    elif k == 'abstract':
+        e = {'kind': 'abstract', 'name': rng.choice(['/tmp/dbus-Xy%d' % rng.randrange(4), 'verif'])}
+    else:
+        host = rng.choice(['127.0.0.1', 'localhost', '::1', 'bus.example.org', '10.0.0.%d' % rng.randrange(9)])
+        port = rng.choice([1, 80, 1234, 65535, rng.randrange(1, 65536)])
+        e = {'kind': k, 'host': host, 'port': port}
+        if k == 'nonce-tcp':
+            e['noncefile'] = os.path.join(tmp, 'nonce')
+        if rng.random() < 0.25:
+            e['swap'] = True
+    if rng.random() < 0.35:           # every real DBUS_SESSION_BUS_ADDRESS carries ,guid=...
+        e['guid'] = '%032x' % rng.getrandbits(128)
+        e['guidpos'] = rng.randrange(4)
+    return e
 
 
 EMPTY_ADDRESSES = ['', ';', 'launchd:env=DBUS_LAUNCHD_SESSION_BUS_SOCKET', 'autolaunch:', 'x-unknown:a=b;']
@@ -168,7 +189,29 @@ class Mods:
                     orig(c)
                 dc.canceller = canceller
                 return dc
+            # attempt index -> exception: that connectTCP/connectUNIX call is recorded, then raises
+            # (the endpoint turns it into an already-failed Deferred: try_next_ep runs inside connect())
+            sync_fail = None
+
+            def _maybe_raise(self):
+                k = len(self.connectors) - 1
+                if self.sync_fail and k in self.sync_fail:
+                    raise self.sync_fail[k]
+
+            def connectTCP(self, *a, **kw):
+                c = MemoryReactorClock.connectTCP(self, *a, **kw)
+                self._maybe_raise()
+                return c
+
+            def connectUNIX(self, *a, **kw):
+                c = MemoryReactorClock.connectUNIX(self, *a, **kw)
+                self._maybe_raise()
+                return c
         self.ObservedClock = ObservedClock
+
+
+class VerifCallbackError(Exception):
+    """What a callback with reaction 'x' raises."""
 
 
 class ConnCb:
@@ -187,6 +230,8 @@ class ConnCb:
             conn.notifyOnDisconnect(ConnCb(run, run.new_cb(late=True), 'n'))
         elif self.r == 'p':
             run.late_proxy(conn)
+        elif self.r == 'x':
+            raise VerifCallbackError('connection-level disconnect callback #%d raises' % self.cid)
 
 
 class ProxyCb:
@@ -205,6 +250,8 @@ class ProxyCb:
             proxy.notifyOnDisconnect(ProxyCb(run, self.pid, run.new_cb(late=True), 'n'))
         elif self.r == 'p':
             run.late_proxy(proxy.objHandler.conn)
+        elif self.r == 'x':
+            raise VerifCallbackError('disconnect callback #%d of proxy #%d raises' % (self.cid, self.pid))
 
 
 class Run:
@@ -241,6 +288,8 @@ class Run:
         self.unexpected = []
         self.double_fire = None
         self.stalled = None
+        self.att = []
+        self.af_count = 0
 
     # -- helpers ---------------------------------------------------------------------------------------------
     def new_cb(self, late=False):
@@ -268,6 +317,7 @@ class Run:
                 self.n_tcp += 1
                 self.fx.append('at:T:%s:%d' % (hexs(rec[0]), rec[1]))
             self.cur_connector = conns[self.n_attempts_seen - 1]
+            self.att.append((self.cur_factory, self.cur_connector, self.cur_unix))
 
     def _connected(self, res):
         kind = 'connection' if isinstance(res, self.M.client.DBusClientConnection) else 'value:' + type(res).__name__
@@ -278,14 +328,21 @@ class Run:
         M = self.M
         if f.check(M.tie.ConnectError) and not f.check(M.tie.ConnectionRefusedError):
             kind = 'noAddress' if 'No valid bus' in f.getErrorMessage() else 'unreachable'
+        elif f.check(M.error.RemoteError) and 'without a bus name' in f.getErrorMessage():
+            kind = 'helloNoName'
         elif f.check(M.error.RemoteError):
             kind = 'helloError'
-        elif self.close_reason is not None and (f is self.close_reason or f.value is self.close_reason.value):
+        elif self.is_loss(f):
             kind = 'lostEarly'
         else:
             kind = 'failure:' + f.type.__name__
         self.fired.append(kind)
         self.fx.append('cf:' + kind)
+
+    def is_loss(self, f):
+        """Is this Failure the loss reason (the object, its exception, or an exception of the same class)?"""
+        r = self.close_reason
+        return r is not None and (f is r or f.value is r.value or type(f.value) is type(r.value))
 
     def enter(self, fn, *a):
         """Call into the library the way the reactor would; an escaping exception is recorded."""
@@ -344,7 +401,7 @@ class Run:
 
         def err(f):
             M = self.M
-            if self.close_reason is not None and f is self.close_reason:
+            if self.is_loss(f):
                 kind = 'lost'
             elif f.check(M.error.TimeOut):
                 kind = 'timeout'
@@ -363,7 +420,10 @@ class Run:
                     self.proto.notifyOnDisconnect(ConnCb(self, self.new_cb(late=True), 'n'))
                 elif r == 'p':
                     self.late_proxy(self.proto)
+                elif r == 'x':
+                    raise VerifCallbackError('errback of call #%d raises' % i)
         d.addCallbacks(ok, err)
+        d.addErrback(lambda f: f.trap(VerifCallbackError) and None)
 
     def issue_call(self, conn, timeout, r, during_loss=False):
         d = conn.callRemote('/org/example/Obj', 'Method', interface='org.example.Iface',
@@ -407,6 +467,13 @@ class Run:
     def start(self):
         M = self.M
         self.reactor = M.ObservedClock()
+        k = 0
+        self.reactor.sync_fail = {}
+        for st in self.sc['steps']:
+            if st['op'] == 'af':
+                if st.get('sync'):
+                    self.reactor.sync_fail[k] = make_failure_exc(M, st.get('exc'))
+                k += 1
         self.reactor.on_cancel = lambda dc: self.fx.append('tc:%d' % self.serial_idx.get(dc.args[0] if dc.args else None, -1))
         M.client.reactor = self.reactor
         try:
@@ -414,26 +481,33 @@ class Run:
         except Exception as e:      # noqa: BLE001
             self.parse_error = type(e).__name__
             return
+        self.note_attempts()      # attempts made inside connect() come before anything the Deferred tells us
         d.addCallbacks(self._connected, self._connect_failed)
         del d
-        self.note_attempts()
         if self.n_attempts_seen == 0:
             self.phase = 'exhausted'
             self.concluded_by = 'no-address'
 
     def op_af(self, st):
         M = self.M
-        self.cur_factory.clientConnectionFailed(self.cur_connector, M.Failure(make_failure_exc(M, st.get('exc'))))
-        before = self.n_attempts_seen
+        k = self.af_count
+        self.af_count += 1
+        if k >= len(self.att):
+            self.unexpected.append('failure of attempt #%d which was never made' % k)
+            return
+        if not st.get('sync'):
+            fac, conn, _ = self.att[k]
+            fac.clientConnectionFailed(conn, M.Failure(make_failure_exc(M, st.get('exc'))))
+        # (a synchronous failure already happened inside connectTCP / connectUNIX)
         self.note_attempts()
-        if self.n_attempts_seen == before:
+        if len(self.att) == k + 1:
             self.phase = 'exhausted'
             self.concluded_by = 'exhausted'
-            if self.sc.get('entries') is not None and self.n_attempts_seen < len(self.sc['entries']):
+            if self.sc.get('entries') is not None and len(self.att) < len(self.sc['entries']):
                 # addresses remain, yet nothing is outstanding any more: the rest of the script cannot be played
-                self.stalled = 'attempt #%d failed with %s; %d of %d addresses tried, no attempt outstanding' % (
-                    self.n_attempts_seen, st.get('exc') or 'ConnectionRefusedError', self.n_attempts_seen,
-                    len(self.sc['entries']))
+                self.stalled = 'attempt #%d failed with %s%s; %d of %d addresses tried, no attempt outstanding' % (
+                    k, st.get('exc') or 'ConnectionRefusedError', ' (synchronously)' if st.get('sync') else '',
+                    len(self.att), len(self.sc['entries']))
 
     def op_ac(self, st):
         M = self.M
@@ -458,16 +532,18 @@ class Run:
             self.phase = 'helloSent'
             self.map_new_serials('hello', False, 'n', False)
 
-    def hello_bytes(self, ok):
+    def hello_bytes(self, ok, named=True):
         M = self.M
         serial = self.idx_serial[0]
+        if ok and not named:
+            return M.message.MethodReturnMessage(serial).rawMessage          # no body: no bus name
         if ok:
             return M.message.MethodReturnMessage(serial, body=[':1.42'], signature='s').rawMessage
         return M.message.ErrorMessage('org.freedesktop.DBus.Error.LimitsExceeded', serial,
                                       body=['too many connections'], signature='s').rawMessage
 
     def op_hello(self, st):
-        data = self.hello_bytes(st['ok'])
+        data = self.hello_bytes(st['ok'], st.get('named', True))
         part = st.get('part')
         if part == 'head':
             self.deliver(data[:cut_at(data, st['cut'])])
@@ -478,7 +554,10 @@ class Run:
         if self.closed:
             return
         self.calls[0]['done'].append('ok' if st['ok'] else 'remote')
-        if st['ok']:
+        if st['ok'] and not st.get('named', True):
+            self.phase = 'helloFailed'
+            self.concluded_by = 'hello-reply-without-name'
+        elif st['ok']:
             self.phase = 'ready'
             self.concluded_by = 'hello-reply'
         else:
@@ -487,6 +566,8 @@ class Run:
 
     def op_close(self, st):
         M = self.M
+        if self.closed:
+            return          # the code closed the transport itself (the reactor told it so already)
         exc = M.tie.ConnectionDone() if st.get('reason', 'done') == 'done' else M.tie.ConnectionLost()
         self.lose(M.Failure(exc))
 
@@ -557,7 +638,8 @@ class Run:
             self.add_proxy(prox, False, key, form)
 
         def err(f):
-            kind = 'introspectionFailed' if f.check(M.error.IntrospectionFailed) else 'other:' + f.type.__name__
+            kind = ('introspectionFailed' if f.check(M.error.IntrospectionFailed) else
+                    'lost' if self.is_loss(f) else 'other:' + f.type.__name__)
             self.calls[i]['done'].append(kind)
             self.fx.append('er:%d:%s' % (i, kind))
         d.addCallbacks(ok, err)
@@ -696,7 +778,10 @@ def make_failure_exc(M, name):
 
 def af_step(rng):
     why, exc = rng.choice(FAILURES)
-    return {'op': 'af', 'why': why, 'exc': exc}
+    st = {'op': 'af', 'why': why, 'exc': exc}
+    if rng.random() < 0.25:
+        st['sync'] = True        # reactor.connectTCP / connectUNIX itself raises
+    return st
 
 
 def cut_at(data, permille):
@@ -740,7 +825,7 @@ def step_tokens(st):
     if op == 'hello':
         if st.get('part') == 'head':
             return []
-        return ['hr' if st['ok'] else 'he']
+        return [('hr' if st.get('named', True) else 'hr:noname') if st['ok'] else 'he']
     if op == 'close':
         return ['cl']
     if op == 'call':
@@ -770,7 +855,18 @@ def step_tokens(st):
 
 def model_line(sc):
     toks = [t for st in sc['steps'] for t in step_tokens(st)]
-    return 'life ' + hexs(sc['address']) + ''.join(' ' + t for t in toks)
+    return 'life ' + hexs(str(os.getpid())) + ' ' + hexs(sc['address']) + ''.join(' ' + t for t in toks)
+
+
+def canon_view(view):
+    """Order of effects is compared only where the statement orders them: the connection attempts and the connect
+    Deferred (in sequence); everything else as a multiset; then the final tables."""
+    if view is None or ' | ' not in view:
+        return view
+    log, state = view.split(' | ', 1)
+    toks = [t for t in log.split(' ') if t]
+    seq = [t for t in toks if t.startswith('at:') or t.startswith('cf:')]
+    return ' '.join(seq) + ' || ' + ' '.join(sorted(toks)) + ' | ' + state
 
 
 def model_view(line):
@@ -835,7 +931,11 @@ def judge(run, sc):
                         % run.concluded_by, run.fired, want))
         elif nfired == 1:
             got = 'connection' if run.fired[0] == 'connection' else 'failure'
-            if got != want or run.fired[0].startswith('value:'):
+            if run.concluded_by == 'hello-reply-without-name' and got == 'connection':
+                out.append(('hello-reply-without-name-yields-dead-connection',
+                            'Hello was answered without a bus name, yet the Deferred fired with a connection (busName %r): '
+                            'its loss will be ignored' % (getattr(run.proto, 'busName', None),), run.fired, 'failure'))
+            elif got != want or run.fired[0].startswith('value:'):
                 out.append(('connect-deferred-wrong-kind', 'history concluded by %s, Deferred fired with %s'
                             % (run.concluded_by, run.fired[0]), run.fired, want))
     elif nfired != 0:
@@ -849,15 +949,19 @@ def judge(run, sc):
         crash_key = None
         if crashed:
             msg = str(run.loss_exc)
-            crash_key = ('connectionlost-dict-changed-size' if isinstance(run.loss_exc, RuntimeError)
-                         and 'changed size during iteration' in msg else 'connectionlost-raised-' + type(run.loss_exc).__name__)
+            if isinstance(run.loss_exc, VerifCallbackError):
+                crash_key = 'loss-aborted-by-raising-disconnect-callback'
+            elif isinstance(run.loss_exc, RuntimeError) and 'changed size during iteration' in msg:
+                crash_key = 'connectionlost-dict-changed-size'
+            else:
+                crash_key = 'connectionlost-raised-' + type(run.loss_exc).__name__
         for i in al['outstanding']:
             done = run.calls[i]['done']
-            want = 'introspectionFailed' if run.calls[i]['kind'] == 'introspect' else 'lost'
-            if len(done) != 1 or done[0] != want:
+            want = ['introspectionFailed', 'lost'] if run.calls[i]['kind'] == 'introspect' else ['lost']
+            if len(done) != 1 or done[0] not in want:
                 key = crash_key or ('pending-call-not-failed-on-loss' if not done else 'pending-call-failed-wrongly-on-loss')
                 out.append((key, 'call #%d was outstanding when the connection was lost; its Deferred fired %r'
-                            % (i, done), done, [want]))
+                            % (i, done), done, want))
         for i in al['completed']:
             if len(run.calls[i]['done']) != 1:
                 out.append(('completed-call-fired-again-on-loss', 'call #%d had completed before the loss; fired %r'
@@ -909,7 +1013,9 @@ def judge(run, sc):
     # nothing fires afterwards
     if run.closed and run.after_probe:
         key = 'fires-after-loss'
-        if run.loss_exc is not None:
+        if isinstance(run.loss_exc, VerifCallbackError):
+            key = 'loss-aborted-by-raising-disconnect-callback'
+        elif run.loss_exc is not None:
             key = ('connectionlost-dict-changed-size' if 'changed size during iteration' in str(run.loss_exc)
                    else 'connectionlost-raised-' + type(run.loss_exc).__name__)
         out.append((key, 'effects after the transport was closed and all time passed: %r'
@@ -1024,7 +1130,7 @@ class ReadyGen:
         self.deadlines = set()
 
     def reaction(self):
-        return self.rng.choice(['n', 'n', 'c', 'u', 'r', 'p'])
+        return self.rng.choice(['n', 'n', 'c', 'u', 'r', 'p', 'x'])
 
     def step(self):
         rng = self.rng
@@ -1053,7 +1159,7 @@ class ReadyGen:
             i = self.next_serial
             self.next_serial += 1
             self.pending[i] = {'kind': 'user', 'deadline': None if timeout is None else self.now + timeout}
-            return [{'op': 'call', 'timeout': timeout, 'r': rng.choice(['n', 'n', 'c', 'r', 'u', 'p'])}]
+            return [{'op': 'call', 'timeout': timeout, 'r': rng.choice(['n', 'n', 'c', 'r', 'u', 'p', 'x'])}]
         if op == 'notify':
             self.conn_cbs.append(self.next_cb)
             self.next_cb += 1
@@ -1114,7 +1220,8 @@ def gen_history(rng, tmp, want=None):
     steps = []
     if n == 0:
         return entries, addr, steps
-    want = want or rng.choice(['ready', 'ready', 'ready', 'ready', 'hello-error', 'auth-fail', 'stall', 'exhaust', 'pending'])
+    want = want or rng.choice(['ready', 'ready', 'ready', 'ready', 'ready', 'hello-error', 'hello-noname', 'auth-fail',
+                               'stall', 'exhaust', 'pending'])
     if want == 'exhaust':
         steps += [af_step(rng) for _ in range(n)]
         return entries, addr, steps
@@ -1123,19 +1230,21 @@ def gen_history(rng, tmp, want=None):
         steps += [af_step(rng) for _ in range(j)]
         return entries, addr, steps
     steps += [af_step(rng) for _ in range(j)] + [{'op': 'ac'}]
-    unix = entries[j]['kind'] in ('unix', 'abstract')
+    unix = entries[j]['kind'] in ('unix', 'abstract', 'tmpdir')
     if want == 'auth-fail':
         return entries, addr, steps + gen_handshake(rng, unix, 'fail')
     if want == 'stall':
         return entries, addr, steps + gen_handshake(rng, unix, 'stall')
     steps += gen_handshake(rng, unix, 'ok')
     ok = want != 'hello-error'
+    named = want != 'hello-noname'
     if rng.random() < 0.4:
         cut = rng.randrange(1, 1000)
-        steps += [{'op': 'hello', 'ok': ok, 'part': 'head', 'cut': cut}, {'op': 'hello', 'ok': ok, 'part': 'tail', 'cut': cut}]
+        steps += [{'op': 'hello', 'ok': ok, 'named': named, 'part': 'head', 'cut': cut},
+                  {'op': 'hello', 'ok': ok, 'named': named, 'part': 'tail', 'cut': cut}]
     else:
-        steps.append({'op': 'hello', 'ok': ok})
-    if not ok:
+        steps.append({'op': 'hello', 'ok': ok, 'named': named})
+    if not ok or not named:
         return entries, addr, steps
     g = ReadyGen(rng)
     for _ in range(rng.choice([0, 1, 2, 4, 6, 8, 10, 14])):
@@ -1164,7 +1273,7 @@ def gen_reaction_skeletons(quick):
     out = []
     for explicit in (True, False):
         for rs in itertools.product(REACTIONS, repeat=conn_n):
-            for cs in itertools.product(['n', 'c', 'r', 'p'], repeat=call_n):
+            for cs in itertools.product(['n', 'c', 'r', 'p', 'x'], repeat=call_n):
                 for ps in itertools.product(REACTIONS, repeat=pcb_n):
                     steps = [{'op': 'ac'}, {'op': 'auth', 'hex': (b'OK ' + GUID + b'\r\n').hex(), 'tok': ['ao']},
                              {'op': 'hello', 'ok': True}]
@@ -1185,7 +1294,7 @@ def gen_reaction_skeletons(quick):
     # two live proxies of the SAME remote object (same bus name, path, interfaces), obtained both ways
     for how in (('i', 'i'), ('e', 'e'), ('e', 'i'), ('i', 'e')):
         for r0 in REACTIONS:
-            for c0 in ['n', 'c', 'r', 'p']:
+            for c0 in ['n', 'c', 'r', 'p', 'x']:
                 for ps in itertools.product(REACTIONS, repeat=2):
                     steps = [{'op': 'ac'}, {'op': 'auth', 'hex': (b'OK ' + GUID + b'\r\n').hex(), 'tok': ['ao']},
                              {'op': 'hello', 'ok': True}, {'op': 'notify', 'r': r0},
@@ -1319,7 +1428,7 @@ def check_scenarios(ctx, M, stream, scenarios):
             continue
         m = model_view(out[k]) if out is not None else None
         impl = impl_view(run)
-        if m is not None and m != impl:
+        if m is not None and canon_view(m) != canon_view(impl):
             ctx.disagree(stream, sc, m, impl)
         for key, what, observed, expected in judge(run, sc):
             ctx.violation(key, what, inp=sc, observed=observed, expected=expected)
@@ -1328,12 +1437,16 @@ def check_scenarios(ctx, M, stream, scenarios):
 def run(ctx):
     M = Mods()
     tmp = tempfile.mkdtemp(prefix='verif-c09-')
+    from twisted.python import log as tlog
+    saved_err = tlog.err
+    tlog.err = lambda *a, **k: None     # log.err() of guarded callbacks would print a traceback per scenario
     try:
         with open(os.path.join(tmp, 'nonce'), 'wb') as f:
             f.write(b'0123456789abcdef')
         _run(ctx, M, tmp)
     finally:
         shutil.rmtree(tmp, ignore_errors=True)
+        tlog.err = saved_err
 
 
 def _run(ctx, M, tmp):
